@@ -4,7 +4,7 @@ import json, os, shutil
 import vlib
 from vlib import Check, ToolError, run_tlc, axv, last_json, write_cfg, tla_set
 
-AS_BUILT = ["UpdateStampsCreator", "NoWriteSetValidation", "CheckpointNotAtomic", "DropNotAtomic"]   # exact deviations recorded in known_findings.json
+AS_BUILT = ["UpdateStampsCreator", "NoWriteSetValidation", "CheckpointNotAtomic"]   # exact deviations recorded in known_findings.json
 
 
 def dev_cfg(wd, devs, name):
